@@ -302,3 +302,196 @@ def comprehension_hook(eng, node, fr, kind, first):
     vars["__out__"] = out
     consume(eng, src, f"{(eng.cur_key or '?').split(':')[-1]}/{rule.get('label', 'comprehension')}", vars, rule["invariant"], body, state=[out])
     return out
+
+
+# ============================================================================== strings, paths, directory walks
+# A symbolic `str` is an opaque reference (an int).  Concrete strings are interned to pairwise different negative ints.
+_INTERN = {}
+
+
+def intern_str(s):
+    if s not in _INTERN:
+        _INTERN[s] = -(len(_INTERN) + 1)
+    return z3.IntVal(_INTERN[s])
+
+
+class StrRef(Sym):
+    """a symbolic string (reference).  Equality with another reference is equality of the references; equality with a
+    concrete str is equality with that string's interned reference (engine hook `__pyvc_compare__`)."""
+
+    def __init__(self, z):
+        super().__init__(z, "ref")
+
+    def __pyvc_compare__(self, eng, op, a, b):
+        if not isinstance(op, (ast.Eq, ast.NotEq)):
+            raise Unsupported("ordering of symbolic strings")
+        r = eng.sbool(zref(a) == zref(b))
+        return r if isinstance(op, ast.Eq) else eng.unop(ast.Not(), r)
+
+
+def zref(v):
+    if isinstance(v, Opaque):
+        return z3.simplify(v.z)  # beta-reduces Select(Lambda ..) of a model-built list column
+    if isinstance(v, Sym):
+        return v.z
+    if isinstance(v, str):
+        return intern_str(v)
+    raise Unsupported(f"not a string reference: {type(v).__name__}")
+
+
+JOIN = z3.Function("path_join", _I, _I, _I)        # os.path.join(a, b)
+RELPATH = z3.Function("path_relpath", _I, _I, _I)  # os.path.relpath(p, start)
+EXTOF = z3.Function("path_ext", _I, _I)            # os.path.splitext(p)[1]
+STEM = z3.Function("path_stem", _I, _I)            # os.path.splitext(p)[0]
+EXISTS = z3.Function("path_exists", _I, _B)        # os.path.exists(p)
+WLEN = z3.Function("walk_len", _I, _I)             # number of directories os.walk(root) visits
+WDIR = z3.Function("walk_dir", _I, _I, _I)         # dirpath of the d-th triple
+WSUB = z3.Function("walk_subdirs", _I, _I, _I)     # its dirnames list (a sequence reference)
+WFILES = z3.Function("walk_files", _I, _I, _I)     # its filenames list (a sequence reference)
+FLEN = z3.Function("names_len", _I, _I)            # length of a names list
+FNAME = z3.Function("names_at", _I, _I, _I)        # its j-th name
+
+
+class PureSeq:
+    """an immutable sequence given by (length, getter); `ref` (a z3 Int term) identifies it"""
+
+    def __init__(self, n, get, ref=None):
+        self.n, self.get, self.ref = n, get, ref
+
+    def __pyvc_sequence__(self, eng):
+        return self.n, self.get
+
+    def __pyvc_snapshot__(self, memo):
+        return self
+
+
+def _names_seq(eng, v):
+    z = zref(v)
+    eng.assume(FLEN(z) >= 0)
+    return FLEN(z), (lambda k: StrRef(FNAME(z, to_z3(k, "int"))))
+
+
+NAMES_PROTO = {"__iter_seq__": _names_seq}
+
+
+def _os_walk(eng, args, kwargs):
+    used(eng, "os.walk(root): a finite sequence of (dirpath, dirnames, filenames) triples determined by `root` (the file system does "
+              "not change during the call); dirnames / filenames are finite lists of names; nothing else is assumed (any layout, any order)")
+    if len(args) != 1 or kwargs:
+        raise Unsupported("os.walk options")
+    r = zref(args[0])
+    d = z3.Int(fresh_name("wd"))
+    p = PList()
+    p.items, p.kinds, p.tup, p.name = None, ["ref", "ref", "ref"], True, "walk"
+    p.cols = [z3.Lambda([d], WDIR(r, d)), z3.Lambda([d], WSUB(r, d)), z3.Lambda([d], WFILES(r, d))]
+    p.n = WLEN(r)
+    p.proto = NAMES_PROTO
+    eng.assume(WLEN(r) >= 0)
+    return Iter(p)  # a generator: one pass
+
+
+def _path_join(eng, args, kwargs):
+    used(eng, "os.path.join(a, b, ...): an uninterpreted function of its arguments (folded from the left)")
+    z = zref(args[0])
+    for a in args[1:]:
+        z = JOIN(z, zref(a))
+    return StrRef(z)
+
+
+def _path_relpath(eng, args, kwargs):
+    used(eng, "os.path.relpath(p, start): an uninterpreted function of its arguments")
+    if len(args) != 2 or kwargs:
+        raise Unsupported("os.path.relpath form")
+    return StrRef(RELPATH(zref(args[0]), zref(args[1])))
+
+
+def _path_splitext(eng, args, kwargs):
+    used(eng, "os.path.splitext(p): a pair of uninterpreted functions (stem, extension) of p")
+    z = zref(args[0])
+    return (StrRef(STEM(z)), StrRef(EXTOF(z)))
+
+
+def _path_exists(eng, args, kwargs):
+    used(eng, "os.path.exists(p): an uninterpreted predicate of p")
+    return eng.sbool(EXISTS(zref(args[0])))
+
+
+# ---------------------------------------------------------------------------------------------- filter(pred, seq)
+class DeclaredFilter:
+    """`params`: z3 terms the predicate depends on besides the element; pred(elem_z, *params) -> z3 Bool;
+    N(s, *params) number of selected elements of the sequence s, K(s, *params, m) position of the m-th one,
+    R(s, *params, i) rank of position i among the selected ones."""
+
+    def __init__(self, name, params, pred, N, K, R):
+        self.name, self.params, self.pred, self.N, self.K, self.R = name, list(params), pred, N, K, R
+
+    def axioms(self, s, n, elem, holds=None):
+        """the characterisation of an order-preserving selection, for the sequence s of length n with elements elem(j)
+        (`holds(j)`: the predicate at position j; default pred(elem(j), *params))"""
+        m, m2, i = z3.Int(fresh_name("fm")), z3.Int(fresh_name("fm2")), z3.Int(fresh_name("fi"))
+        P = self.params
+        if holds is None:
+            holds = lambda t: self.pred(elem(t), *P)
+        N, K, R = self.N(s, *P), (lambda t: self.K(s, *P, t)), (lambda t: self.R(s, *P, t))
+        return [
+            z3.And(N >= 0, N <= n),
+            z3.ForAll([m], z3.Implies(z3.And(m >= 0, m < N), z3.And(K(m) >= 0, K(m) < n, holds(K(m)), R(K(m)) == m)), patterns=[K(m)]),
+            z3.ForAll([m, m2], z3.Implies(z3.And(m >= 0, m < m2, m2 < N), K(m) < K(m2)), patterns=[z3.MultiPattern(K(m), K(m2))]),
+            z3.ForAll([i], z3.Implies(z3.And(i >= 0, i < n, holds(i)), z3.And(R(i) >= 0, R(i) < N, K(R(i)) == i)), patterns=[R(i)]),
+        ]
+
+
+def declare_filter(eng, flt):
+    eng.ghost.setdefault("declared-filters", []).append(flt)
+
+
+def _filter_model(eng, args, kwargs):
+    """builtin filter(pred, iterable): the elements for which pred is true, in order (one-shot iterator)."""
+    pred, seq = args
+    if pred is None:
+        raise Unsupported("filter(None, ...)")
+    try:
+        items = models.iterate_concrete(eng, seq)
+    except Unsupported:
+        items = None
+    if items is not None:
+        return Iter(PList([x for x in items if eng.branch(eng.truth(eng.call(pred, [x], {})))]))
+    used(eng, "filter(pred, seq) over an immutable sequence: the elements satisfying pred, in order, each once (ghost maps "
+              "K: output position -> input position, strictly increasing, and R: input position -> output position)")
+    if not (isinstance(seq, Opaque) and "__iter_seq__" in seq.proto):
+        raise Unsupported("filter over this kind of symbolic sequence")
+    n, get = seq.proto["__iter_seq__"](eng, seq)
+    nz = zint(n) if not isinstance(n, Sym) else n.z
+    j = z3.Int(fresh_name("fj"))
+    eng.pure_mode = getattr(eng, "pure_mode", 0) + 1
+    try:
+        pj = to_z3(eng.truth(eng.call(pred, [get(Sym(j, "int"))], {})), "bool")
+    finally:
+        eng.pure_mode -= 1
+    elem = lambda t: to_z3(get(Sym(t, "int")), "int")
+    sz = zref(seq)
+    holds = None
+    for flt in eng.ghost.get("declared-filters", []):
+        want = flt.pred(elem(j), *flt.params)
+        if z3.simplify(want).eq(z3.simplify(pj)) or z3.simplify(want == pj).eq(z3.BoolVal(True)):
+            break
+    else:
+        # a predicate the contract did not declare: fresh ghost maps for this one call (nothing links two such calls)
+        tag = fresh_name("flt")
+        flt = DeclaredFilter(tag, [], None, z3.Function(tag + "_n", _I, _I), z3.Function(tag + "_k", _I, _I, _I), z3.Function(tag + "_r", _I, _I, _I))
+        holds = lambda t: z3.substitute(pj, (j, t))
+    for ax in flt.axioms(sz, nz, elem, holds):
+        eng.assume(ax)
+    P = flt.params
+    return Iter(PureSeq(flt.N(sz, *P), lambda m: get(Sym(flt.K(sz, *P, to_z3(m, "int")), "int")), ref=sz))
+
+
+def install():
+    import os
+
+    models.EXTRA_MODELS[os.walk] = _os_walk
+    models.EXTRA_MODELS[os.path.join] = _path_join
+    models.EXTRA_MODELS[os.path.relpath] = _path_relpath
+    models.EXTRA_MODELS[os.path.splitext] = _path_splitext
+    models.EXTRA_MODELS[os.path.exists] = _path_exists
+    models.EXTRA_MODELS[filter] = _filter_model
